@@ -431,6 +431,14 @@ class Run:
         self.quiet = q
         self.emit({"e": "unpause", "s": self.proj.state()})
 
+    def resume_store(self) -> None:
+        """The store-level operator call `store.resume(id)` (a duplicate / late resume): a no-op unless the row is PAUSED."""
+        q = self.quiet
+        self.quiet = True
+        self.store.resume(self.wf_id)
+        self.quiet = q
+        self.emit({"e": "unpause", "s": self.proj.state()})
+
     def restart_stage(self, stage_ref: str) -> None:
         from stabilize import Orchestrator
 
